@@ -840,6 +840,20 @@ class Model:
                     for h in getattr(st, 'handlers', []):
                         h.body = split(h.body)
                     if isinstance(st, ast.Assign) and len(st.targets) == 1 and isinstance(st.targets[0], ast.Tuple) and isinstance(st.value, ast.Tuple) \
+                            and len(st.targets[0].elts) == len(st.value.elts) and not any(isinstance(v, ast.Starred) for v in st.value.elts) \
+                            and all(isinstance(t, ast.Name) or (isinstance(t, ast.Attribute) and dotted(t)) for t in st.targets[0].elts) \
+                            and any(isinstance(t, ast.Attribute) for t in st.targets[0].elts):
+                        # `result, self._buf = (self._buf[:n], self._buf[n:])`: an attribute among the targets - read one after the other
+                        # when no element mentions an attribute target that an EARLIER position re-binds
+                        tsrc = [dotted(t) if isinstance(t, ast.Attribute) else t.id for t in st.targets[0].elts]
+                        safe = len(set(tsrc)) == len(tsrc) and all(
+                            not any((isinstance(x, ast.Name) and x.id == tsrc[i]) or (isinstance(x, ast.Attribute) and dotted(x) == tsrc[i])
+                                    for i in range(j) for x in ast.walk(v)) for j, v in enumerate(st.value.elts))
+                        if safe:
+                            for t, v in zip(st.targets[0].elts, st.value.elts):
+                                out.append(ast.fix_missing_locations(ast.copy_location(ast.Assign(targets=[t], value=v, type_comment=None), st)))
+                            continue
+                    if isinstance(st, ast.Assign) and len(st.targets) == 1 and isinstance(st.targets[0], ast.Tuple) and isinstance(st.value, ast.Tuple) \
                             and len(st.targets[0].elts) == len(st.value.elts) and all(isinstance(t, ast.Name) for t in st.targets[0].elts) \
                             and not any(isinstance(v, ast.Starred) for v in st.value.elts):
                         tnames = [t.id for t in st.targets[0].elts]
